@@ -151,6 +151,77 @@ func init() {
 				}
 			}
 		}
+		// ids that share their first segment (OFL-1.1-RFN / OFL-1.1-no-RFN, CC-BY-SA-3.0-DE / CC-BY-NC-SA-3.0-DE, Latex2e /
+		// Latex2e-translated-notice: one is the other with a piece cut out), both sides with '+', with and without a common
+		// exception — code that looks for the family of ids the range table does not cover slices both texts
+		{
+			byStem := map[string][]string{}
+			for _, id := range append(append([]string{}, tblActive...), tblDeprecated...) {
+				if strings.HasSuffix(id, "+") {
+					continue
+				}
+				st := id
+				if i := strings.IndexByte(id, '-'); i > 0 {
+					st = id[:i]
+				}
+				byStem[st] = append(byStem[st], id)
+			}
+			exc := tblExceptions[int(seed)%len(tblExceptions)]
+			for _, ids := range byStem {
+				if len(ids) < 2 {
+					continue
+				}
+				if len(ids) > 24 && !thorough() {
+					ids = append([]string{}, ids...)
+					rng.Shuffle(len(ids), func(i, j int) { ids[i], ids[j] = ids[j], ids[i] })
+					ids = ids[:24]
+				}
+				for _, a := range ids {
+					for _, b := range ids {
+						if a == b {
+							continue
+						}
+						for _, pr := range [][2]string{{a + "+", b + "+"}, {a + "+ WITH " + exc, b + "+ WITH " + exc}} {
+							res.Evaluations++
+							count("same_stem_plus_pairs")
+							if r := implSat(pr[0], []string{pr[1]}); r.panicv != nil {
+								fail(failure{Stream: "oracle", What: fmt.Sprintf("Satisfies panicked while comparing two '+' terms whose ids share their first segment: %v", r.panicv), Case: &kase{Expr: pr[0], ExprHex: hx(pr[0]), Allowed: []string{pr[1]}}, Impl: "PANIC", Expected: "a result or an error"})
+							}
+						}
+					}
+				}
+			}
+		}
+		// every sequence of up to three symbols of the token alphabet, tight and loose (what C05 enumerates for acceptance, here
+		// under recover through every entry point: diagnostics that look back at earlier tokens index what may not be there)
+		{
+			alpha := []string{"MIT", "GPL-2.0", "Classpath-exception-2.0", "FOO", "LicenseRef-x", "DocumentRef-d", ":", "(", ")", "AND", "OR", "WITH", "+", "and", "GPL-2.0-or-later", "Apache-2.0-or-later"}
+			var rec func(pre []string, d int)
+			rec = func(pre []string, d int) {
+				if len(pre) > 0 {
+					natural := ""
+					for i, t := range pre { // '+' and ':' abut what stands before them, '(' what follows, ':' also what follows
+						if i > 0 && t != "+" && t != ":" && t != ")" && pre[i-1] != "(" && pre[i-1] != ":" {
+							natural += " "
+						}
+						natural += t
+					}
+					for _, text := range uniqueStrings([]string{strings.Join(pre, " "), strings.Join(pre, ""), natural}) {
+						count("token_sequences")
+						if f := c03Probe(text, false); f != nil {
+							fail(*f)
+						}
+					}
+				}
+				if d == 0 {
+					return
+				}
+				for _, a := range alpha {
+					rec(append(append([]string{}, pre...), a), d-1)
+				}
+			}
+			rec(nil, 3)
+		}
 		// non-ASCII, confusable and odd-whitespace texts (Unicode-aware helpers change byte lengths and equalities)
 		for _, s := range unicodeStream(scale(60, 400)) {
 			count("unicode_stream")
@@ -536,6 +607,23 @@ func init() {
 				count("spelling_experiments")
 				if f := c04String(w2+suf, -1); f != nil {
 					fail(*f)
+				}
+			}
+		}
+		// every deprecated id and every special id, in each '+'-spelling, in front of WITH (a rewrite of legacy ids that have an
+		// exception in their name — `GPL-2.0-with-GCC-exception` — meets the explicit exception here)
+		for i, wd := range append(append([]string{}, tblDeprecated...), specialIDs...) {
+			wd = strings.TrimSuffix(wd, "+")
+			for j, suf := range []string{"", "+", "-or-later", "-only+"} {
+				e := tblExceptions[(i*7+j)%len(tblExceptions)]
+				count("spelling_with_exception")
+				if f := c04String(wd+suf+" WITH "+e, -1); f != nil {
+					fail(*f)
+				}
+				if j == 1 {
+					if f := c04String("ISC AND ("+wd+suf+" WITH "+e+" OR MIT)", -1); f != nil {
+						fail(*f)
+					}
 				}
 			}
 		}
@@ -1576,6 +1664,27 @@ func init() {
 			}
 			if len(corrQ) > 50000 {
 				flushCorr()
+			}
+		}
+		// listed ids (every id of the range table, the special ids) with STACKED suffixes — `X-only-or-later`, `X-only+`,
+		// `X-or-later-only`, … — alone and behind rewritten terms: whether such a text is accepted or not is C05's business; IF
+		// it is refused with a located error, lexeme and offset must be those of the caller's text (the '+' the scanner writes
+		// into its buffer is not)
+		{
+			ids := append(append([]string{}, famIDs...), specialIDs...)
+			for i, id := range ids {
+				id = strings.TrimSuffix(id, "+")
+				for j, suf := range []string{"-only-or-later", "-only+", "-or-later-only", "-or-later-or-later", "-only-only", "-or-later+", "-only-or-later+", "-or-later-only+"} {
+					if !thorough() && (i+j)%2 == int(seed%2) {
+						continue
+					}
+					for _, pre := range []string{"", "MIT-or-later AND ", "(Apache-2.0-or-later OR ISC-or-later+) AND "} {
+						count("stacked_suffixes")
+						if f := c15Check(pre+id+suf, "any", (i+j)%3); f != nil {
+							fail(*f)
+						}
+					}
+				}
 			}
 		}
 		for _, s := range []string{"Apache-2.0-or-later AND FOO", "GPL-2.0-or-later AND FOO", "Apache-2.0-or-later+ AND FOO", "(Apache-2.0-or-later AND MIT-or-later) OR LicenseRef-", "MIT-or-later OR   ISC-or-later AND !", "FOO", " FOO", "LicenseRef-", "MIT AND DocumentRef-"} {
